@@ -127,9 +127,10 @@ def discharge(obls, timeout_s=30, axioms=None, use_cvc5=False, escalate=True, no
     tasks, trivial = [], {}
     for o in obls:
         g = z3.simplify(o.goal) if z3.is_expr(o.goal) else z3.BoolVal(bool(o.goal))
-        if o.kind == 'frame' or z3.is_true(g) or z3.is_false(g):
+        if z3.is_true(g) or ((o.kind == 'frame' or z3.is_false(g)) and not o.premises):
             trivial[o.name] = ('discharged' if z3.is_true(g) else 'open', 'syntactic', 0.0, '' if z3.is_true(g) else 'goal is literally false', o.kind)
             continue
+        # (a literally false goal with premises is still sent to the solver: the path may be infeasible)
         short = bool(no_escalate and no_escalate(o.name))      # expected-open (known finding): small budget, no escalation
         tasks.append((o.name, to_smt2(o.premises, o.goal, axioms), int((min(timeout_s, 5) if short else timeout_s) * 1000), 0, model_spec(o.name) if model_spec else None))
     res = {}
